@@ -202,6 +202,34 @@ Proof.
   eexists. split; [reflexivity | exact R].
 Qed.
 
+Theorem b58_encode_injective b1 b2 t : (exists c, In c b1 /\ c <> x00) -> (exists c, In c b2 /\ c <> x00) ->
+  b58_encode b1 = Ok t -> b58_encode b2 = Ok t -> b1 = b2.
+Proof.
+  intros H1 H2 E1 E2. destruct (b58_roundtrip b1 H1) as [t1 [Ea Da]]. destruct (b58_roundtrip b2 H2) as [t2 [Eb Db]].
+  assert (t1 = t) by congruence. assert (t2 = t) by congruence. subst. congruence.
+Qed.
+
+(* decode accepts exactly the non-empty strings over the alphabet *)
+Theorem b58_decode_accepts t : (exists b, b58_decode t = Ok b) <-> (t <> [] /\ Forall (fun c => In c alphabet) t).
+Proof.
+  split.
+  - intros [b H]. unfold b58_decode in H. destruct t as [|c r] eqn:Et; [discriminate|]. rewrite <- Et in *.
+    split; [rewrite Et; discriminate|].
+    destruct (chars_to_digits t) as [ds|] eqn:E; [|discriminate].
+    destruct (chars_to_digits_some t ds E) as [Hm Hf]. rewrite <- Hm. clear -Hf.
+    induction Hf as [|d l Hd _ IH]; cbn [map]; constructor; [|exact IH].
+    unfold char_of_digit. apply nth_In. rewrite alphabet_length. lia.
+  - intros [Hne Hall]. unfold b58_decode. destruct t as [|c r] eqn:Et; [congruence|]. rewrite <- Et in *.
+    assert (Hd : exists ds, chars_to_digits t = Some ds).
+    { clear -Hall. induction Hall as [|x l Hx _ [ds IH]]; [exists []; reflexivity|].
+      cbn [chars_to_digits]. rewrite IH.
+      destruct (In_nth _ _ one_char Hx) as [i [Hi Hn]].
+      assert (E : digit_of_char x = Some (N.of_nat i)).
+      { rewrite <- Hn. rewrite <- (Nat2N.id i) at 1. apply digit_of_char_of_digit. rewrite alphabet_length in Hi. lia. }
+      rewrite E. eauto. }
+    destruct Hd as [ds ->]. eauto.
+Qed.
+
 (* the quirk: all-zero input comes back one byte longer *)
 Theorem b58_allzero k : (0 < k)%nat ->
   b58_encode (repeat x00 k) = Ok (repeat one_char k) /\
